@@ -351,11 +351,12 @@ def run_sequence(ctx, spec, stats=None):
     w1 = float(np.sum(np.abs(wm)))
     ctx.check(abs(float(np.sum(wm)) - 1.0) <= 8 * (2 * n + 1) * EPS * w1, "weights-sum",
               f"sum(mean_weight) = {float(np.sum(wm))!r} (n={n}, alpha={alpha}, kappa={kappa})", wit(0), mon="weights_sum_one")
+    # gamma = sqrt(n + lambda) inherits the cancellation in lambda = alpha^2 (n + kappa) - n: relative error ~ eps / alpha^2
     # lambda = alpha^2 (n + kappa) - n cancels for small alpha: equivalent ways of writing Wm0 = lambda / (n + lambda) differ by a
     # few eps * (1 + |Wm0|) in the *absolute* value of lambda/(n+lambda); 256 eps covers every algebraically equivalent form
     ok_w = (wm.shape == wm_r.shape and np.all(np.abs(wm - wm_r) <= 256 * EPS * (np.abs(wm_r) + 1.0) + 1e-300)
             and np.all(np.abs(wc - wc_r) <= 256 * EPS * (np.abs(wm_r) + 1 + alpha * alpha + beta))
-            and _mx(wcm - np.diag(wc)) == 0.0 and abs(float(f.gamma) - g_r) <= 16 * EPS * g_r)
+            and _mx(wcm - np.diag(wc)) == 0.0 and abs(float(f.gamma) - g_r) <= 64 * EPS * (1.0 + 1.0 / (alpha * alpha)) * g_r)
     ctx.check(bool(ok_w), "weights-ne-scaled-ut", f"weights/gamma differ from the scaled unscented transform: Wm0={wm[0]!r} vs {wm_r[0]!r}, "
               f"Wc0={wc[0]!r} vs {wc_r[0]!r}, gamma={float(f.gamma)!r} vs {g_r!r}", wit(0), mon="weights_scaled_ut")
     bnd = _Bounds(n, wm_r, wc_r, g_r)
@@ -554,7 +555,7 @@ def run_sequence(ctx, spec, stats=None):
         fl_d = t_id + asym_pp + nkf2 * (t_s + kf.asym(ss))
         ctx.check(lam_d >= -fl_d, "posterior-exceeds-prior", f"step {k}: pred_p - est_p has eigenvalue {lam_d:.3e} (floor {-fl_d:.3e})", w, mon="post_le_prior")
         _chk_cov(ctx, w, f"step {k}: est_p", est_p, max(t_p, t_id), K_STALE if stale else None,
-                 sym_tol=t_id + asym_pp + nkf2 * kf.asym(ss), decided=dec_post or not stale)
+                 sym_tol=4.0 * (t_id + asym_pp + nkf2 * kf.asym(ss)), decided=dec_post or not stale)
         # ---- result objects / forecast ------------------------------------------------------------
         if do_rt:
             try:
